@@ -491,6 +491,7 @@ Lemma nme_format_Pr : forall pr x, nme (format_Pr_into_html pr x).
 Proof.
   intros. unfold format_Pr_into_html. apply nme_bind.
   - apply nme_foldM. intros d kv. destruct (dict_get (fst kv) x); [|apply nme_ok].
+    destruct (is_off (snd kv)); [apply nme_ok|].
     apply nme_bind; [apply nme_eval_fexpr|]. intros. apply nme_ok.
   - intros. apply nme_ok.
 Qed.
